@@ -331,6 +331,33 @@ class Run:
                         self.drain_trace()
                         self.observe()
                         self.obs[-1]["parked_at"] = op[1]
+                    elif op[0] == "SLOW":
+                        # a stalled write: the file <uid>.<ext> of the segment directory op[1] is a FIFO nobody reads yet,
+                        # so the flush that writes it blocks in that write until DRAIN
+                        rev = {v: k for k, v in self.uidmap.items()}
+                        d = os.path.join(self.eng.root, "cols", "shard-0", "%05d" % int(op[1]))
+                        os.makedirs(d, exist_ok=True)
+                        self.slow = os.path.join(d, rev[op[2]] + "." + op[3])
+                        os.mkfifo(self.slow)
+                    elif op[0] == "DRAIN":
+                        # the slow write completes: read what the writer wrote and put it where the file belongs
+                        import threading
+                        box = {}
+                        def _rd():
+                            with open(self.slow, "rb") as f:
+                                box["data"] = f.read()
+                        th = threading.Thread(target=_rd, daemon=True); th.start(); th.join(10)
+                        if "data" in box:
+                            tmp = self.slow + ".drained"
+                            open(tmp, "wb").write(box["data"]); os.replace(tmp, self.slow)
+                        else:
+                            self.notes.append("DRAIN: nobody wrote the stalled file")
+                            try:
+                                os.unlink(self.slow)
+                            except OSError:
+                                pass
+                    elif op[0] == "SLEEP":
+                        self.eng.cmd(f"!sleep {int(op[1])}")
                     elif op[0] == "HIDE":
                         # read fault: the <uid>.zones file of a segment (op[1] = position among the existing segment
                         # directories, op[2] = event type) becomes unreadable (renamed) until UNHIDE
